@@ -1,6 +1,6 @@
 (* C06 — a cache hit returns what executing the task now would return. *)
 From Pydra Require Import Base.Prelude Base.PySort Model.Hash Spec.Hash Proofs.HashSort Proofs.HashCtx
-     Proofs.HashInj Proofs.HashOrder Proofs.HashTask Proofs.HashRefuted Proofs.HashCache.
+     Proofs.HashInj Proofs.HashOrder Proofs.HashTask Proofs.HashRefuted Proofs.HashCache Proofs.HashChecksum.
 
 (* For every blake2b H, every deterministic [run] that may depend on all aspects of a task (the hashed field
    values, the closure cells / globals hidden in its function value, the per-field metadata), and every history
@@ -82,3 +82,39 @@ Theorem C06_array_shape_dtype_separated : forall H,
     preimage H (nd_zeros "float64" [6]) <> preimage H (nd_zeros "float64" [2; 3]).
 Proof. exact array_shape_dtype_separated. Qed.
 Print Assumptions C06_array_shape_dtype_separated.
+
+(* The Merkle argument carried through _compute_hashes + _checksum: two tasks whose hashed field values lie in the
+   domain of C08_ser_injective and whose checksums are equal have the same task type and, matched by field name,
+   equal values (sets as sets, dicts as maps) — or an explicit collision of H between two byte strings hashed for a
+   pair of field values, or for the two outer lists of (name, hex digest) tuples. *)
+Theorem C06_checksum_injective : forall H env1 env2 ty1 ty2 f1 f2 c,
+    (forall kv, In kv f1 -> field_ok H env1 kv) -> (forall kv, In kv f2 -> field_ok H env2 kv) ->
+    checksum H ty1 f1 = Ok c -> checksum H ty2 f2 = Ok c ->
+    ty1 = ty2 /\
+    ((fields_match H f1 f2 /\ fields_match H f2 f1) \/
+     exists l1 l2, outer_value H f1 = Ok l1 /\ outer_value H f2 = Ok l2 /\
+                   collision H (S (vdepth l1)) l1 (S (vdepth l2)) l2).
+Proof. exact checksum_injective. Qed.
+Print Assumptions C06_checksum_injective.
+
+Theorem C06_identity_separates_or_collision : forall H t1 t2,
+    in_domain H t1 -> in_domain H t2 -> ident_of H t1 = ident_of H t2 ->
+    same_hashed_aspects t1 t2 \/ task_collision H t1 t2.
+Proof. exact identity_separates_or_collision. Qed.
+Print Assumptions C06_identity_separates_or_collision.
+
+(* histories: over tasks of that domain, if run depends only on the aspects that enter the checksum (task type,
+   field names and values incl. the function bytes and the Outputs class), every submission — in particular every
+   cache hit — returns what executing the task now would return, or two submitted tasks exhibit a collision of H *)
+Theorem C06_history_sound_or_collision : forall H (O : Type) (run : taskdef -> O) (ts : list taskdef),
+    (forall t, In t ts -> in_domain H t) ->
+    (forall t1 t2, same_hashed_aspects t1 t2 -> run t1 = run t2) ->
+    fst (submit_all (ident_of H) run [] ts) = map run ts \/
+    exists t1 t2, In t1 ts /\ In t2 ts /\ task_collision H t1 t2.
+Proof. exact history_sound_or_collision. Qed.
+Print Assumptions C06_history_sound_or_collision.
+
+(* non-vacuity: a history [A; B; A] of tasks in the domain (list-valued input, function and Outputs fields) *)
+Theorem C06_checksum_example : forall H t, In t [ck_task 1; ck_task 2; ck_task 1] -> in_domain H t.
+Proof. exact ck_history. Qed.
+Print Assumptions C06_checksum_example.
